@@ -114,10 +114,17 @@ Proof.
   - intros H. exists e. split; [exact H|apply Z.eqb_refl].
 Qed.
 
+Lemma prr_nodup_snoc {A} (l : list A) e : NoDup l -> ~ In e l -> NoDup (l ++ [e]).
+Proof.
+  induction 1 as [|a l Ha Hl IH]; intros Hn; cbn [app]; [constructor; [intros []|constructor]|].
+  constructor.
+  - rewrite in_app_iff. intros [H|[H|[]]]; [exact (Ha H)|]. apply Hn. left. symmetry. exact H.
+  - apply IH. intros H. apply Hn. right. exact H.
+Qed.
+
 Lemma prr_track_u_nodup tb e off len : NoDup (map fst tb) -> NoDup (map fst (snd (prr_track_u tb e off len))).
 Proof.
   intros H. rewrite (proj1 (prr_track_u_exts tb e off len)).
   destruct (prr_mem_z e (map fst tb)) eqn:E; [rewrite app_nil_r; exact H|].
-  apply NoDup_rev. rewrite rev_app_distr. cbn [rev app]. constructor; [|apply NoDup_rev; exact H].
-  intros Hin. apply in_rev in Hin. apply prr_mem_z_in in Hin. congruence.
+  apply prr_nodup_snoc; [exact H|]. intros Hin. apply prr_mem_z_in in Hin. congruence.
 Qed.
